@@ -15,6 +15,7 @@ not decode (no tab yet, a short checksum, or a checksum of a different text — 
 SHA-256 not to collide on {json, prefix-of-json}, which the concrete instance states explicitly).
 -/
 import Cacache.Lemmas.Bucket
+import Cacache.Lemmas.Stream
 import Cacache.Props.C06
 
 namespace Cacache.C04
@@ -150,6 +151,24 @@ theorem remove_crash_bucket (key : Bytes) (b0 : Bytes) (fs : FS)
     generalize (run env (insert cfg cache key {}) fs) = rr at h ⊢
     obtain ⟨res, fs1, tr⟩ := rr
     cases res <;> (simp only [crash]; exact h)
+
+/-- **The whole keyed write** (open, any chunks, commit), killed at any call with the in-flight
+call torn at any byte: the content store is valid *and* the key's bucket is the old bytes plus a
+prefix of one new record — so by `torn_entries` every lookup sees the old state or the new one. -/
+theorem keyed_write_crash (fl : Flavour) (key : Bytes) (o : WriteOpts) (chunks : List Bytes)
+    (b0 : Bytes) (fs : FS) (hv : ContentValid cfg cache fs)
+    (hb : BucketIs fs (bucketPath cfg cache key) b0) (n t : Nat) :
+    ContentValid cfg cache (crash env (writeStream cfg cache fl (some key) o chunks) fs n t) ∧
+    GrowingAny cfg cache key b0 (crash env (writeStream cfg cache fl (some key) o chunks) fs n t) :=
+  wpD_crash (writeStream_keyed_wp cfg env cache fl key o chunks b0 hv hb) n t
+
+/-- Before the commit reaches its index phase nothing in the index area changes at all — in
+particular a crash before the content is published cannot make the new entry visible: the phases
+up to and including the checks never aim at the index area (C08.check_phase_no_index). -/
+theorem content_first (w : Writer) (hw : w.Ok) (fs : FS) (q : Path) (hq : InArea w.cache dIndex q)
+    (n t : Nat) : (crash env (wcommitCheck cfg w) fs n t).get q = fs.get q :=
+  AllCalls.frame_crash
+    ((wcommitCheck_areas cfg w hw).mono (fun c hc => hc.avoids hq (by decide)) (fun _ h => h)) env fs n t
 
 /-- Non-vacuity: the hypotheses of the codec-level theorems are met by the empty bucket. -/
 example (c : Codec R M) (L : TornLaws c) : c.Settled [] := L.toLaws.settled_nil
